@@ -64,9 +64,16 @@ def main():
                 res['confirmed'] = False
                 res['why'] = 'patch does not apply: ' + o[-400:]
                 return finish(res, out)
-            rc, o, t = run('go build ./... && go test -vet=off -count=1 -timeout 20m ./...', cwd=wt)
-            res['ran'].append({'cmd': 'go build ./... && go test -vet=off -count=1 ./...  (with the change)', 'rc': rc, 'tail': o[-300:], 's': round(t)})
-            suite_ok = rc == 0
+            # the baseline suite has load-dependent flakes (TestStoreCompactionDeletions /
+            # TestStoreNilValue: "expected reopen store to work", also on the unmodified
+            # tree): up to three attempts, one clean pass counts
+            suite_ok = False
+            for attempt in range(3):
+                rc, o, t = run('go build ./... && go test -vet=off -count=1 -timeout 20m ./...', cwd=wt)
+                res['ran'].append({'cmd': 'go build ./... && go test -vet=off -count=1 ./...  (with the change), attempt %d' % (attempt + 1), 'rc': rc, 'tail': o[-300:], 's': round(t)})
+                if rc == 0:
+                    suite_ok = True
+                    break
             shutil.copy(demo, f'{wt}/zz_seed_demo_{which}_test.go')
             rc, o, t = run(f'go test -vet=off -count=1 -run TestSeedDemo{which} .', cwd=wt, timeout=600)
             res['ran'].append({'cmd': f'go test -run TestSeedDemo{which} (with the change)', 'rc': rc, 'tail': o[-400:], 's': round(t)})
